@@ -150,7 +150,12 @@ def run(tier, seed):
                 "CREATE SCHEMA IF NOT EXISTS audit;\nCREATE SCHEMA IF NOT EXISTS audit;\nCREATE SEQUENCE s1 START 1;\nCREATE SEQUENCE s1 START 1;\n",
                 "CREATE DATABASE db1;\nCREATE TABLESPACE ts1;\nCREATE DATABASE db1;\nCREATE TYPE ty AS ENUM ('a');\nCREATE TYPE ty AS ENUM ('a');\n",
                 "CREATE TABLE t1 (a int);\nCREATE TABLE t1 (a int);\nSET x = 1;\nSET x = 1;\n-- c\n",
+                "CREATE DATABASE sales TABLESPACE fast_ts;\nCREATE SCHEMA sc2 TABLESPACE ts2;\nCREATE TABLE t9 (a int) TABLESPACE ts3;\n",
+                "SET search_path = audit, pg_catalog;\nSET search_path TO a, public;\nSET x = 1;\nCREATE TABLE t1 (a int);\n",
                 "", "\n", "GO\nUSE db;\n", "-- only comment\n"]
+    # the bucket each statement kind belongs to (by the statement, not by the keys its entity happens to carry)
+    want_buckets = {"CREATE DATABASE": "databases", "CREATE TABLESPACE": "tablespaces", "CREATE SCHEMA": "schemas", "CREATE SEQUENCE": "sequences", "CREATE TYPE": "types",
+                    "CREATE TABLE": "tables", "CREATE DOMAIN": "domains"}
     st = []
     for sp_ in specials:
         for m in modes:
@@ -172,6 +177,13 @@ def run(tier, seed):
         if sorted(json.dumps(e, sort_keys=True) for e in ents) != sorted(json.dumps(e, sort_keys=True) for e in regrouped):
             V.mismatch(dict(case, problem="the buckets do not hold exactly the entities of the flat list", flat=ents, grouped=grp[1]))
             continue
+        import re as _re
+        for kw_, b_ in want_buckets.items():
+            n_stmt = len(_re.findall(r"(?mi)^" + kw_ + r"\b", st[k2][0]))
+            n_in = len([e for e in grp[1].get(b_, [])])
+            if kw_ != "CREATE TABLE" and n_stmt != n_in:
+                V.mismatch(dict(case, problem=f"{n_stmt} {kw_} statement(s) but {n_in} entities in the bucket `{b_}`", grouped={k_: len(v_) for k_, v_ in grp[1].items()}))
+                break
         for b, v in grp[1].items():
             if b != "comments":
                 idx = [ents.index(e) for e in v]
